@@ -179,7 +179,7 @@ pub fn check(st: &mut Stats, c: &C) {
             let a = Date::parse(&text, "YYYY-MM-DD").ok();
             st.op(Op::S_json_de);
             let b = serde_json::from_str::<Date>(&format!("\"{}\"", text)).ok();
-            for (how, r) in [("Date::parse", a), ("serde text", b)] {
+            for (how, r) in [("Date::parse", a), ("serde-text", b)] {
                 match r {
                     Some(dt) => {
                         st.obs(Op::D_parse, &dt);
